@@ -245,13 +245,33 @@ def probe_cases(ctx, ws, cwd, asm0, which, part=0, nparts=1):
                              ("@in.s", RELOC), ("my rule.yaml", real.dump_rule({"pattern": ["push", "mov"]})), ("in put.s", RELOC)):
                 with open(os.path.join(cwd, nm), "w") as f:
                     f.write(text)
+            # a path that goes through a symlinked directory and then "..": the file the operating system reaches, not the lexical one
+            os.makedirs(os.path.join(cwd, "releases", "v2"), exist_ok=True)
+            if not os.path.islink(os.path.join(cwd, "current")):
+                os.symlink(os.path.join("releases", "v2"), os.path.join(cwd, "current"))
+            with open(os.path.join(cwd, "releases", "listing.s"), "w") as f:
+                f.write(RELOC)
+            with open(os.path.join(cwd, "listing.s"), "w") as f:
+                f.write("  401000:\tc3                   \tret\n")
+            with open(os.path.join(cwd, "releases", "rule.yaml"), "w") as f:
+                f.write(real.dump_rule({"pattern": ["push", "mov"]}))
+            with open(os.path.join(cwd, "rule.yaml"), "w") as f:
+                f.write(real.dump_rule({"pattern": ["zzz"]}))
             for rule, inp, macros in (("@rule.yaml", "@in.s", ["@frame.yaml"]), ("my rule.yaml", "in put.s", None), ("@rule.yaml", "in put.s", ["./@frame.yaml"]),
-                                      ("my rule.yaml", "@in.s", ["@frame.yaml"])):
+                                      ("my rule.yaml", "@in.s", ["@frame.yaml"]), ("my rule.yaml", "current/../listing.s", None), ("current/../rule.yaml", "in put.s", None),
+                                      ("current/../rule.yaml", "current/../listing.s", None)):
                 for am in (False, True):
                     compare(ctx, ws, cwd, rule, inp, False, am, True, macros, "probe-file-names")
                     ctx.event("file_name_probes")
         finally:
             os.chdir(here)
+        # one match whose text is longer than 64 KiB (a NOP sled): the command logs the whole element the API returns
+        sled = "".join(f"  {0x401000 + j:x}:\t90                   \tnop\n" for j in range(6000)) + f"  {0x401000 + 6000:x}:\tc3                   \tret\n"
+        lps = ws.write("sled.s", sled)
+        rps = ws.write("sled.yaml", real.dump_rule({"pattern": [{"nop": {"times": {"min": 1, "max": 7000}}}, "ret"]}))
+        for am in (False, True):
+            compare(ctx, ws, cwd, rps, lps, False, am, False, None, "probe-long-match")
+            ctx.event("long_match_probes")
         lp = ws.write("reloc.s", RELOC)
         for pat in (["push", "mov"], ["zzz"]):
             rp = ws.write("probe_rule_s.yaml", real.dump_rule({"pattern": pat}))
